@@ -240,7 +240,7 @@ pub fn run(out: &mut Out, tier: &str, rng: &mut Rng) {
             }
         }
         out.comment("random triples over the CLDR universe + unknowns");
-        let n = if thorough { 1_500_000 } else { 30_000 };
+        let n = if thorough { 500_000 } else { 30_000 };
         for _ in 0..n {
             let a = if rng.chance(1, 5) { String::new() } else { rng.pick(&ls).clone() };
             let b = if rng.chance(1, 2) { String::new() } else { rng.pick(&ss).clone() };
